@@ -373,6 +373,14 @@ func (a *Analyzer) execBlock(fr *frame, b *ssa.BasicBlock, st *State) (flows []f
 				cond := a.val(s, x.Cond)
 				a.noteBranch(fr, x, cond)
 				bt, bf := a.branch(s, cond)
+				if a.OnBranch != nil && fr.depth == 0 {
+					if bt != nil {
+						a.OnBranch(fr.fn, x, true, bt)
+					}
+					if bf != nil {
+						a.OnBranch(fr.fn, x, false, bf)
+					}
+				}
 				if bt != nil {
 					bt.note(fmt.Sprintf("%s:T", a.P.RelPos(condPos(x))))
 					flows = append(flows, flow{b.Succs[0], a.takeEdge(b, b.Succs[0], bt)})
@@ -401,6 +409,9 @@ func (a *Analyzer) execBlock(fr *frame, b *ssa.BasicBlock, st *State) (flows []f
 						tu.Elems = append(tu.Elems, a.val(s, r))
 					}
 					v = tu
+				}
+				if a.OnRet != nil && fr.depth == 0 {
+					a.OnRet(fr.fn, x, s, v)
 				}
 				rets = append(rets, retState{s, v})
 			}
